@@ -42,14 +42,14 @@ def _replay_group(group):
   prefix, trans = group
   rm = impl.fresh()
   for letter in prefix:
-    impl.add(rm, (letter[0], letter[1], tuple(letter[2])))
+    impl.step(rm, letter)
   import copy
   out = []
   for t in trans:
     rm2 = impl.fresh()
     rm2._scope_configs = copy.deepcopy(rm._scope_configs)  # pylint: disable=protected-access
     letter = t["hist"][-1]
-    got_last = impl.add(rm2, (letter[0], letter[1], tuple(letter[2])))
+    got_last = impl.step(rm2, letter)
     exp = impl.export(rm2)
     res = impl.resolve(rm2)
     rt = impl.roundtrip(rm2)
@@ -74,7 +74,7 @@ def main():
   maxlen = 2 if args.tier == "quick" else 3
   consts, tabs = recipe.tla_constants(A, maxlen, FIXES_NOW)
   invs = ["UniqueOpPerRegex", "UniqueRegex", "StarFirst", "NonEmptyLists", "ResolvedIsSupported"]
-  props = ["RegexOrderStable", "RefusalIsNoop"]
+  props = ["RegexOrderStable", "RefusalIsNoop", "LoadResets"]
   if prop == "C12":
     invs = ["RoundTrip", "RoundTripResolves"]
     props = []
@@ -138,7 +138,8 @@ def main():
       "distinct_histories": len(stores), "max_history_exhaustive": maxlen, "max_history_simulated": 10,
       "evaluations": len(results), "distinct_nontrivial": len(stores),
       "rule": "every (reachable store, letter) transition of Recipe.tla within MaxLen plus simulated histories to length 10; "
-              "alphabet = 3 regexes x 3 operator selectors x 8 (config, algorithm) pairs; queried at 2 operators x 3 scopes",
+              "alphabet = 3 regexes x 3 operator selectors x 8 (config, algorithm) pairs + load_quantization_recipe of 4 rule lists "
+              "(incl. a list whose middle rule is refused: non-atomic load); queried at 2 operators x 3 scopes",
       "alphabet": {"regexes": A["regexes"], "scopes": A["scopes"], "opsels": A["opsels"], "cfgalgs": A["cfgalgs"]},
       "supported_table": {"%s/%s@%s" % (k[0][0], k[0][1], k[1]): v for k, v in tabs["supported"].items()},
       "replay_wall_s": round(time.time() - t0, 1), "roundtrip_known": dict(nrt_bad),
@@ -157,7 +158,12 @@ def classify_c12(res, A):
   status, eq_recipe, _ = res["rt"]
   # current store = replay of the history in the documented model is not needed: the failing rule kinds are visible
   # in the history's accepted letters
-  letters = [(l[0], l[1], tuple(l[2])) for l in res["hist"]]
+  letters = []
+  for l in res["hist"]:
+    if l[0] == "load":
+      letters += [(r, o, tuple(c)) for r, o, c in A["lists"][l[1] - 1]]
+    else:
+      letters.append((l[0], l[1], tuple(l[2])))
   if status == "keyerror" and "F12" in kf and any(not_has_w(A, l) and l[2][1] != "noq" for l in letters):
     return "F12"
   if status == "ok" and not eq_recipe and "F14" in kf and any(l[2][1] == "noq" and l[2][0] != "dflt" for l in letters):
@@ -228,7 +234,10 @@ def byte_identity(chk, A, results, args):
     q1 = quantizer.Quantizer(model)
     for l in json.loads(h):
       try:
-        q1.update_quantization_recipe(A["regexes"][l[0]], Q.TFLOperationName(l[1]), A["cfgs"][l[2][0]], recipe.ALG[l[2][1]])
+        if l[0] == "load":
+          impl.load(q1._recipe_manager, l[1])  # pylint: disable=protected-access
+        else:
+          q1.update_quantization_recipe(A["regexes"][l[0]], Q.TFLOperationName(l[1]), A["cfgs"][l[2][0]], recipe.ALG[l[2][1]])
       except ValueError:
         pass
     rec = q1.get_quantization_recipe()
